@@ -15,6 +15,9 @@ type Clause struct {
 	Src   string
 	E     Expr
 	Loop  int // for invariants
+	// Induct: for a lemma, the name of the int variable the lemma is proved by induction on (base 0, step k -> k+1);
+	// the lemma is then assumed for all k >= 0
+	Induct string
 }
 
 type Let struct {
@@ -30,6 +33,10 @@ type Contract struct {
 	Requires []Clause
 	Ensures  []Clause
 	Lemmas   []Clause // intermediate facts over the parameters: each is proved (obligation #lemma.<name>) and then assumed by every later obligation
+	// Uses: explicit lemma applications `use #<loop> <lemma>(args)` (at the back edges of that loop; names mean the
+	// values at the end of the body, prev_<name> the values at the loop head) and `use return <lemma>(args)` (Loop 0,
+	// at function exit). The premises of the instance are an obligation, its conclusion is then assumed.
+	Uses     []Clause
 	Invs     map[int][]Clause
 	Modifies []string
 	Trusted  string
@@ -63,8 +70,8 @@ type ContractSet struct {
 // extraImports: package path -> import name -> package path, from `//@ import` directives
 var extraImports = map[string]map[string]string{}
 
-var clauseKW = map[string]bool{"lemma": true, "let": true, "requires": true, "ensures": true, "invariant": true, "modifies": true,
-	"trusted": true, "pure": true, "inline": true, "opaque": true, "nopanic": true, "decreases": true, "axiom": true, "ownership": true, "decfull": true, "splittail": true, "splitext": true, "abstract": true}
+var clauseKW = map[string]bool{"use": true, "lemma": true, "let": true, "requires": true, "ensures": true, "invariant": true, "modifies": true,
+	"trusted": true, "pure": true, "inline": true, "opaque": true, "nopanic": true, "decreases": true, "axiom": true, "ownership": true, "decfull": true, "splittail": true, "splitext": true, "splitrec": true, "abstract": true}
 
 var labelRe = regexp.MustCompile(`^([A-Za-z_][A-Za-z0-9_]*):\s+(.*)$`)
 
@@ -231,12 +238,19 @@ func (cs *ContractSet) parseFile(w *World, pkgPath, file string, f *ast.File) {
 				if m := labelRe.FindStringSubmatch(src); m != nil && !strings.HasPrefix(m[2], ":") {
 					label, src = m[1], m[2]
 				}
+				induct := ""
+				if c.kw == "lemma" && strings.HasPrefix(src, "induct ") {
+					if i := strings.Index(src, "::"); i > 0 {
+						induct = strings.TrimSpace(src[len("induct "):i])
+						src = strings.TrimSpace(src[i+2:])
+					}
+				}
 				e, err := ParseExpr(src)
 				if err != nil {
 					cs.errf(file, c.n, "%v", err)
 					continue
 				}
-				cc := Clause{Label: label, Src: src, E: e}
+				cc := Clause{Label: label, Src: src, E: e, Induct: induct}
 				if c.kw == "requires" {
 					cur.Requires = append(cur.Requires, cc)
 				} else if c.kw == "lemma" {
@@ -267,6 +281,40 @@ func (cs *ContractSet) parseFile(w *World, pkgPath, file string, f *ast.File) {
 					continue
 				}
 				cur.Invs[n] = append(cur.Invs[n], Clause{Label: label, Src: src, E: e, Loop: n})
+			case "use":
+				src := c.rest
+				loop := 0
+				if strings.HasPrefix(src, "#") {
+					sp := strings.IndexAny(src, " \t")
+					n, err := strconv.Atoi(src[1:sp])
+					if err != nil {
+						cs.errf(file, c.n, "bad loop ordinal")
+						continue
+					}
+					loop = n
+					src = strings.TrimSpace(src[sp:])
+				} else if strings.HasPrefix(src, "return ") {
+					src = strings.TrimSpace(src[len("return "):])
+				} else {
+					cs.errf(file, c.n, "use needs #n or return")
+					continue
+				}
+				e, err := ParseExpr(src)
+				if err != nil {
+					cs.errf(file, c.n, "%v", err)
+					continue
+				}
+				call, ok := e.(*ECall)
+				if !ok {
+					cs.errf(file, c.n, "use needs a lemma application")
+					continue
+				}
+				id, ok := call.Fun.(*EIdent)
+				if !ok {
+					cs.errf(file, c.n, "use needs a lemma name")
+					continue
+				}
+				cur.Uses = append(cur.Uses, Clause{Label: id.Name, Src: src, E: e, Loop: loop})
 			case "modifies":
 				for _, m := range strings.Split(c.rest, ",") {
 					cur.Modifies = append(cur.Modifies, strings.TrimSpace(m))
